@@ -252,8 +252,14 @@ def run(rep):
     i = 0
     while i < len(lines):
         n = rng.choice([1, 1, 1, 2, 3, 4])
-        nl = rng.choice(["\n", "\r\n"])
-        t = nl.join(lines[i:i + n])
+        nl = rng.choice(["\n", "\r\n", "mixed"])
+        chunk = lines[i:i + n]
+        if nl == "mixed":          # both separators in one text, empty lines, a separator at the end
+            t = ""
+            for j, l in enumerate(chunk):
+                t += l + (rng.choice(["\n", "\r\n", "\r\n\n", "\n\r\n"]) if j < len(chunk) - 1 or rng.random() < 0.3 else "")
+        else:
+            t = nl.join(chunk)
         i += n
         texts.append((t, LANGS[len(texts) % len(LANGS)], cs[len(texts) % len(cs)]))
     rep.sample({"text": texts[len(texts) // 2][0], "lang": texts[len(texts) // 2][1]})
